@@ -267,22 +267,30 @@ def gen_mtm(seed, index):
     nh = 0
     n = rng.randint(4, 22)
     lookups = []
+    optional = arity >= 2 and rng.random() < 0.4
     for _ in range(rng.randint(2, 5)):
-        lookups.append([rng.choice(CNAMES[:-1] + ["int"]) for _ in range(arity)])
+        ln = rng.randint(1, arity) if optional else arity
+        lookups.append([rng.choice(CNAMES[:-1] + ["int"]) for _ in range(ln)])
+
+    def reg_op(h):
+        op = {"op": "reg", "types": [rng.choice(CNAMES) for _ in range(arity)],
+              "prio": rng.choice([0, 0, 0, 1, 2]), "h": h}
+        if optional and rng.random() < 0.6:
+            op["req"] = rng.randint(1, arity - 1)
+        return op
+
     last = None
     while len(ops) < n:
         r = rng.random()
         if last is not None and rng.random() < 0.55:
             # register something, then look the same key up again
-            ops.append({"op": "reg", "types": [rng.choice(CNAMES) for _ in range(arity)],
-                        "prio": rng.choice([0, 0, 0, 1, 2]), "h": nh})
+            ops.append(reg_op(nh))
             nh += 1
             ops.append({"op": last["op"], "types": last["types"], **({"h": last["h"]} if "h" in last else {})})
             last = None
             continue
         if r < 0.4 or nh == 0:
-            ops.append({"op": "reg", "types": [rng.choice(CNAMES) for _ in range(arity)],
-                        "prio": rng.choice([0, 0, 0, 1, 2]), "h": nh})
+            ops.append(reg_op(nh))
             nh += 1
         elif r < 0.8:
             op = {"op": "get", "types": rng.choice(lookups)}
@@ -322,10 +330,13 @@ def _mtm_outcome(fn):
         return ["err", "other", type(e).__name__]
 
 
-def _mksig(types, prio):
+def _mksig(types, prio, req=None):
     from ovld.core import Signature
 
-    return Signature(types=tuple(types), return_type=None, req_pos=len(types), max_pos=len(types),
+    # (req < len(types): trailing optional positional parameters - the handler also answers
+    # shorter argument tuples)
+    return Signature(types=tuple(types), return_type=None,
+                     req_pos=len(types) if req is None else req, max_pos=len(types),
                      req_names=frozenset(), vararg=False, priority=prio)
 
 
@@ -350,7 +361,7 @@ def execute_mtm(scen):
 
     for i, op in enumerate(scen["ops"]):
         if op["op"] == "reg":
-            sig = _mksig([cl[t] for t in op["types"]], op["prio"])
+            sig = _mksig([cl[t] for t in op["types"]], op["prio"], op.get("req"))
             tm.register(sig, hs[op["h"]])
             regs.append(op)
             if seen:
@@ -361,7 +372,7 @@ def execute_mtm(scen):
             out = lookup(tm, op, hs)
             fresh = MultiTypeMap()
             for r in regs:
-                fresh.register(_mksig([cl[t] for t in r["types"]], r["prio"]), hs[r["h"]])
+                fresh.register(_mksig([cl[t] for t in r["types"]], r["prio"], r.get("req")), hs[r["h"]])
             ref = lookup(fresh, op, hs)
             trace.append(out)
             if out != ref:
